@@ -26,7 +26,7 @@ Definition moved_or_panic (out : obs) (t o : Z) : bool :=
   if inst_in_rangeb t then out_is_instant out t o else out_is_panic out.
 
 (* ---------------------------------------------------------------- C03 *)
-Definition check_C03 (c : case) : Z :=
+Definition check_C03_core (c : case) : Z :=
   match c_op c, c_ints c with
   | Op_dt_from_ts, [t] =>
       let mo := match dt_from_timestamp false t with
@@ -255,6 +255,19 @@ Definition ms_spec (d1 n1 d2 n2 m y m' y' : Z) : bool :=
   && (if dn_leb (d1, n1) (d2, n2) && (snd A <=? 28)
       then (0 <=? m') && dn_leb (rd (add_months_spec A m'), n1) (d2, n2) && dn_ltb (d2, n2) (rd (add_months_spec A (m' + 1)), n1)
       else true).
+(* C03, last clause: the order of two instants agrees with the sign of every *_since difference (the differences themselves
+   are C06's subject; its oracle is reused for the correspondence) *)
+Definition check_C03 (c : case) : Z :=
+  match c_op c, c_ints c with
+  | Op_dt_since, [u; d1; n1; o1; d2; n2; o2] =>
+      let v := check_C06 c in
+      let s := match c_out c with
+               | OOk [r] [] => if 0 <? r then inst d2 n2 <? inst d1 n1 else if r <? 0 then inst d1 n1 <? inst d2 n2 else true
+               | _ => false end in
+      if v =? 0 then verdict true s else if v =? 1 then verdict false s else if v =? 2 then verdict true s else verdict false s
+  | _, _ => check_C03_core c
+  end.
+
 Definition check_C07 (c : case) : Z :=
   match c_op c, c_ints c, c_out c with
   | Op_date_ms, [d1; d2], OOk [m; y; m'; y'] [] =>
@@ -413,6 +426,8 @@ Definition check_C10 (c : case) : Z :=
       let so := OOk [y; m; dd; 1 + ld - rd (y, 1, 1); (4 + (ld - 719162)) mod 7; h; mi; s; ns / 1000000; ns / 1000; ns;
                      (inst d n) / NANOS_PER_SEC - EPOCH_SECS] [] in
       verdict (obs_eqb mo (c_out c)) (obs_eqb so (c_out c))
+  (* the getters of a Time read the clock shifted by its offset, modulo one day (same oracle as in C08) *)
+  | Op_time_get, [_; _] => check_C08 c
   | _, _ => V_MALFORMED
   end.
 
